@@ -23,6 +23,9 @@ def run(ctx):
     ctx.rule("R19-2", "grammar: + - * / ^ are the rules add subtract multiply divide power; each evaluator arm performs "
                       "the operation of its rule; integer + - * are wrapping; the calculation rule is SOI .. EOI")
     ctx.rule("R19-3", "run_calculator evaluates with eval_float iff the line contains '.'")
+    ctx.rule("R19-5", "every literal the grammar accepts as `num` is a string Rust's f64 parser accepts (the float evaluator "
+                      "unwraps that parse): all strings up to 5 characters over {+ - . e E 0 1} that the rule `num` matches "
+                      "entirely (grammar evaluated as data with a PEG interpreter) fit [+-]?(d+.?d*|.d+)([eE][+-]?d+)?")
     ctx.rule("R19-4", "no panic-capable site in the evaluators is undischarged; integer division only under rhs != 0")
     gpath = os.path.join(ctx.root, "src", "calculator", "grammar.pest")
     try:
@@ -35,6 +38,8 @@ def run(ctx):
         if g is not None:
             grammar_rule(ctx, crate, g)
         evaluator_rules(ctx, crate)
+        if g is not None:
+            num_syntax_rule(ctx, crate, g, "R19-5")
         mode_rule(ctx, crate)
         panic_rule(ctx, crate)
 
@@ -201,3 +206,20 @@ def panic_rule(ctx, crate):
         ctx.violations[v["key"]] = v
     ctx.paths_enumerated += sub.paths_enumerated
     ctx.require(n >= 5, "R19-4", "R19-4|%s|sites" % crate.kind, "fewer than 5 panic-capable sites found in the evaluators (%d)" % n)
+
+
+def num_syntax_rule(ctx, crate, g, rule):
+    import re
+    if not ctx.require("num" in g.rules, rule, "%s|grammar|num" % rule, "the calculator grammar has no rule `num`"):
+        return
+    cache = g.__dict__.setdefault("_num_matches", None)
+    if cache is None:
+        cache = g.full_matches("num", "+-.eE01", 5)
+        g.__dict__["_num_matches"] = cache
+    F = re.compile(r"^[+-]?([0-9]+\.?[0-9]*|\.[0-9]+)([eE][+-]?[0-9]+)?$")
+    bad = [m for m in cache if not F.match(m)]
+    ctx.paths_enumerated += 19607
+    ctx.ob(rule, "calculator::grammar", "all %d literals (<= 5 characters over {+ - . e E 0 1}) matched by `num` parse as f64"
+           % len(cache), bool(cache) and not bad, key="%s|grammar|num-parses-as-f64" % rule, crate=crate.kind,
+           detail=None if not bad else "e.g. %s: the line `1 + %s` reaches parse::<f64>().unwrap() in eval_float and the shell "
+           "panics" % (", ".join(repr(x) for x in bad[:5]), bad[0]))
